@@ -1,9 +1,9 @@
 package main
 
 import (
-	"regexp"
 	"fmt"
 	"os"
+	"regexp"
 	"sort"
 	"strconv"
 	"strings"
@@ -381,6 +381,9 @@ func cloneJ(j J) J {
 
 // runHistory executes lines on a fresh database of the implementation and on the driver.
 func runHistory(dr *Driver, im *Impl, lines []J, opts HistOpts) HistoryOutcome {
+	if searchMode {
+		opts.SpecOnly = true
+	}
 	im.Reset()
 	dr.Ask(J{"k": "reset"})
 	out := HistoryOutcome{Index: -1}
@@ -446,6 +449,13 @@ func runHistory(dr *Driver, im *Impl, lines []J, opts HistOpts) HistoryOutcome {
 			out.Results = append(out.Results, r)
 			if strings.HasPrefix(ans, "bad-") {
 				out.Index, out.Kind, out.Detail = i, "model", "driver rejected the line: "+ans
+				return out
+			}
+			// the cursor monitor: the model (and the cursor contract both adapters are validated against) defines a
+			// cursor only over a transaction that is not mutated while it is open, except by CreateIndex (writes
+			// beyond the scanned prefix) and DropIndex (deletes the entry the cursor stands on)
+			if er.MutUnderCursor > 0 && !opts.SpecOnly && ln["op"] != "createIndex" && ln["op"] != "dropIndex" {
+				out.Index, out.Kind, out.Detail = i, "model", fmt.Sprintf("%d store mutations were made while a cursor of the same transaction was open: the operation relies on cursor behaviour under mutation, which the model does not define (and on which the backends differ)", er.MutUnderCursor)
 				return out
 			}
 			sp, mp := compareOp(ln, &out.Results[len(out.Results)-1])
